@@ -12,26 +12,26 @@
 (* Generator configurations (NEXT Gen) print every configuration with what the spec accepts.    *)
 EXTENDS Perdictable, Json
 CONSTANTS Sizes     \* set of <<n, K, nk, cache, values>>: inputs, keys, key columns, enumerate cached values /
-                    \* expiries ("yes"/"no"), values: "distinct" | "same" (every cell, scalar and default is the same
+                    \* expiries ("yes"/"no"; "scalar": one expiry value for all rows), values: "distinct" | "same" (every cell, scalar and default is the same
                     \* value: calls collide, bag counts matter) | "pairs" (the previously computed values are 2-tuples)
                     \* cache = "beyond" additionally gives past expiries to keys that were NOT computed before -
                     \* outside the quantifier ("expiry to previously computed keys"); configuration `beyond`
                     \* documents that there the code's gating leaves such rows uncomputed (ComputedRows fails).
 
 \* the size sets of the configuration files (a .cfg cannot write tuples): <<n, K, nk, cache, values>>
-SZ_quick == {<<1, 3, 1, "yes", "distinct">>, <<2, 2, 1, "yes", "distinct">>, <<2, 3, 1, "no", "distinct">>, <<3, 3, 1, "no", "distinct">>, <<1, 3, 2, "yes", "distinct">>, <<2, 2, 2, "yes", "distinct">>, <<2, 3, 2, "no", "distinct">>, <<1, 3, 1, "yes", "same">>, <<2, 2, 1, "yes", "same">>, <<1, 3, 1, "yes", "pairs">>}
+SZ_quick == {<<1, 3, 1, "yes", "distinct">>, <<2, 2, 1, "yes", "distinct">>, <<2, 3, 1, "no", "distinct">>, <<3, 3, 1, "no", "distinct">>, <<1, 3, 2, "yes", "distinct">>, <<2, 2, 2, "yes", "distinct">>, <<2, 3, 2, "no", "distinct">>, <<1, 3, 1, "yes", "same">>, <<2, 2, 1, "yes", "same">>, <<1, 3, 1, "yes", "pairs">>, <<1, 3, 1, "scalar", "distinct">>, <<2, 2, 2, "scalar", "distinct">>}
 SZ_thorough == {<<1, 3, 1, "yes", "distinct">>, <<2, 3, 1, "yes", "distinct">>, <<3, 2, 1, "yes", "distinct">>, <<3, 3, 1, "no", "distinct">>, <<4, 3, 1, "no", "distinct">>}
-SZ_thorough2 == {<<1, 3, 2, "yes", "distinct">>, <<2, 3, 2, "yes", "distinct">>, <<3, 2, 2, "yes", "distinct">>, <<3, 3, 2, "no", "distinct">>, <<1, 3, 1, "yes", "same">>, <<2, 3, 1, "yes", "same">>, <<3, 2, 1, "yes", "same">>, <<1, 3, 1, "yes", "pairs">>, <<2, 3, 2, "yes", "pairs">>}
+SZ_thorough2 == {<<1, 3, 2, "yes", "distinct">>, <<2, 3, 2, "yes", "distinct">>, <<3, 2, 2, "yes", "distinct">>, <<3, 3, 2, "no", "distinct">>, <<1, 3, 1, "yes", "same">>, <<2, 3, 1, "yes", "same">>, <<3, 2, 1, "yes", "same">>, <<1, 3, 1, "yes", "pairs">>, <<2, 3, 2, "yes", "pairs">>, <<1, 3, 1, "scalar", "distinct">>, <<2, 3, 2, "scalar", "distinct">>, <<3, 2, 1, "scalar", "distinct">>}
 SZ_beyond == {<<1, 2, 1, "beyond", "distinct">>}
-SZ_gen_quick == {<<1, 3, 1, "yes", "distinct">>, <<2, 2, 1, "yes", "distinct">>, <<2, 3, 1, "no", "distinct">>, <<3, 3, 1, "no", "distinct">>, <<1, 3, 2, "yes", "distinct">>, <<2, 2, 2, "yes", "distinct">>, <<2, 3, 2, "no", "distinct">>, <<2, 2, 1, "yes", "same">>, <<1, 3, 1, "yes", "pairs">>}
+SZ_gen_quick == {<<1, 3, 1, "yes", "distinct">>, <<2, 2, 1, "yes", "distinct">>, <<2, 3, 1, "no", "distinct">>, <<3, 3, 1, "no", "distinct">>, <<1, 3, 2, "yes", "distinct">>, <<2, 2, 2, "yes", "distinct">>, <<2, 3, 2, "no", "distinct">>, <<2, 2, 1, "yes", "same">>, <<1, 3, 1, "yes", "pairs">>, <<1, 3, 1, "scalar", "distinct">>, <<2, 2, 2, "scalar", "distinct">>}
 SZ_gen_join == {<<1, 3, 1, "no", "distinct">>, <<2, 3, 1, "no", "distinct">>, <<3, 3, 1, "no", "distinct">>, <<1, 3, 2, "no", "distinct">>, <<2, 3, 2, "no", "distinct">>, <<3, 3, 2, "no", "distinct">>}
 SZ_gen_join4 == {<<4, 3, 1, "no", "distinct">>}
 SZ_gen_cache == {<<1, 3, 1, "yes", "distinct">>, <<2, 3, 1, "yes", "distinct">>, <<3, 2, 1, "yes", "distinct">>}
 SZ_gen_cache2 == {<<1, 3, 2, "yes", "distinct">>, <<2, 3, 2, "yes", "distinct">>, <<3, 2, 2, "yes", "distinct">>}
-SZ_gen_values == {<<1, 3, 1, "yes", "same">>, <<2, 3, 1, "yes", "same">>, <<3, 2, 2, "yes", "same">>, <<1, 3, 1, "yes", "pairs">>, <<2, 2, 1, "yes", "pairs">>, <<2, 2, 2, "yes", "pairs">>}
+SZ_gen_values == {<<1, 3, 1, "yes", "same">>, <<2, 3, 1, "yes", "same">>, <<3, 2, 2, "yes", "same">>, <<1, 3, 1, "yes", "pairs">>, <<2, 2, 1, "yes", "pairs">>, <<2, 2, 2, "yes", "pairs">>, <<1, 3, 1, "scalar", "distinct">>, <<2, 3, 2, "scalar", "distinct">>, <<3, 2, 1, "scalar", "distinct">>}
 
-VARIABLES size, shape, dflt, cache, C, todo, out, calls, ncall, phase
-vars == <<size, shape, dflt, cache, C, todo, out, calls, ncall, phase>>
+VARIABLES size, shape, dflt, cache, sexp, C, todo, out, calls, ncall, phase
+vars == <<size, shape, dflt, cache, sexp, C, todo, out, calls, ncall, phase>>
 
 NK   == size[3]
 Same == size[5] = "same"
@@ -52,37 +52,41 @@ Old(k)      == IF size[5] = "pairs" THEN VTup(<<VStr("old"), VInt(KeyNo(k))>>)  
 ShapeU(sz) == {[t |-> FALSE, ks |-> {}]} \cup {[t |-> TRUE, ks |-> S] : S \in SUBSET KeysOf(sz)}
 Beyond(sz) == sz[4] = "beyond"
 Status(sz) == IF Beyond(sz) THEN {"nc", "ncpast", "absent", "past", "future", "none"}
-              ELSE IF sz[4] = "yes" THEN {"nc", "absent", "past", "future", "none"} ELSE {"nc"}
+              ELSE IF sz[4] = "yes" THEN {"nc", "absent", "past", "future", "none"}
+              ELSE IF sz[4] = "scalar" THEN {"nc", "absent"} ELSE {"nc"}
+\* cache = "scalar": the expiry is ONE value for all rows (sexp: a past date, a future date or None), not a table
+ScalarExp(sz) == IF sz[4] = "scalar" THEN {"past", "future", "none"} ELSE {"no"}
 
 MkIn(i, sh) == IF sh.t THEN [kind |-> "keyed", v |-> None, map |-> [k \in sh.ks |-> Cell(i, k)]]
                ELSE [kind |-> "scalar", v |-> Scal(i), map |-> <<>>]
 CachedKeys(ch) == {k \in DOMAIN ch : ch[k] \notin {"nc", "ncpast"}}
 ExpKeys(ch)    == {k \in DOMAIN ch : ch[k] \in {"past", "future", "none", "ncpast"}}
 ExpVal(s)      == CASE s \in {"past", "ncpast"} -> PastD [] s = "future" -> FutureD [] s = "none" -> None
-MkCfg(sh, df, ch) ==
+MkCfg(sh, df, ch, sx) ==
     [ins    |-> [i \in DOMAIN sh |-> MkIn(i, sh[i])],
      defs   |-> [i \in DOMAIN sh |-> IF df[i] THEN <<Dflt(i)>> ELSE <<>>],
      data   |-> IF CachedKeys(ch) = {} THEN <<>> ELSE <<[k \in CachedKeys(ch) |-> Old(k)]>>,
-     expiry |-> IF ExpKeys(ch) = {} THEN <<>> ELSE <<[k \in ExpKeys(ch) |-> ExpVal(ch[k])]>>,
+     expiry |-> IF sx # "no" THEN <<"scalar", ExpVal(sx)>> ELSE IF ExpKeys(ch) = {} THEN <<>> ELSE <<[k \in ExpKeys(ch) |-> ExpVal(ch[k])]>>,
      today  |-> Today]
 
 Init == /\ size \in Sizes
         /\ shape \in [1..size[1] -> ShapeU(size)] /\ dflt \in [1..size[1] -> BOOLEAN]
         /\ cache \in [KeysOf(size) -> Status(size)]
+        /\ sexp \in ScalarExp(size)
         /\ C = <<>> /\ todo = {} /\ out = <<>> /\ calls = <<>> /\ ncall = <<>>
         /\ phase = "new"
 \* the call is made (only inside the quantifier's domain): the rows to evaluate are those of the join
 Start == /\ phase = "new"
-         /\ LET c == MkCfg(shape, dflt, cache) IN
+         /\ LET c == MkCfg(shape, dflt, cache, sexp) IN
               /\ InDomain(c) \/ (Beyond(size) /\ InDomain([c EXCEPT !.expiry = <<>>]))
               /\ C' = c
               /\ todo' = JoinKeys(c)
               /\ ncall' = [k \in JoinKeys(c) |-> 0]
          /\ phase' = "fresh"
-         /\ UNCHANGED <<size, shape, dflt, cache, out, calls>>
+         /\ UNCHANGED <<size, shape, dflt, cache, sexp, out, calls>>
 
 \* the code's gating of one row: the joined `data` / `expiry` cells (None where the key is missing)
-MechExpiry(c, k) == IF c.expiry # <<>> /\ k \in DOMAIN c.expiry[1] THEN c.expiry[1][k] ELSE None
+MechExpiry(c, k) == IF HasExpiry(c, k) THEN ExpiryAt(c, k) ELSE None      \* a scalar expiry is a constant column
 MechRuns(c, k)   == \/ c.data = <<>>                         \* no data column at all: run every row
                     \/ IsNone(MechExpiry(c, k))              \* run_expiry: value is None
                     \/ ~IsPast(MechExpiry(c, k), c.today)    \*             or value >= today
@@ -93,17 +97,17 @@ Keep(k) == /\ Running /\ k \in todo /\ ~MechRuns(C, k)
            /\ out' = (k :> MechCache(C, k)) @@ out
            /\ todo' = todo \ {k}
            /\ phase' = "eval"
-           /\ UNCHANGED <<size, shape, dflt, cache, C, calls, ncall>>
+           /\ UNCHANGED <<size, shape, dflt, cache, sexp, C, calls, ncall>>
 Call(k) == /\ Running /\ k \in todo /\ MechRuns(C, k)
            /\ calls' = Append(calls, Args(C, k))
            /\ ncall' = [ncall EXCEPT ![k] = @ + 1]
            /\ out' = (k :> F(Args(C, k))) @@ out
            /\ todo' = todo \ {k}
            /\ phase' = "eval"
-           /\ UNCHANGED <<size, shape, dflt, cache, C>>
+           /\ UNCHANGED <<size, shape, dflt, cache, sexp, C>>
 Finish == /\ Running /\ todo = {}
           /\ phase' = "done"
-          /\ UNCHANGED <<size, shape, dflt, cache, C, todo, out, calls, ncall>>
+          /\ UNCHANGED <<size, shape, dflt, cache, sexp, C, todo, out, calls, ncall>>
 KeepSome == \E k \in Keys : Keep(k)
 CallSome == \E k \in Keys \cup {<<>>} : Call(k)
 Next == Start \/ KeepSome \/ CallSome \/ Finish
@@ -116,7 +120,7 @@ AllDefaultIsUnion  == Fresh /\ ~AllScalar(C) /\ Strict(C) = {} =>
                          \A k \in Keys : k \in JoinKeys(C) <=> \E i \in Tables(C) : k \in Dom(C, i)
 DefaultNeverRemoves == Fresh /\ ~AllScalar(C) =>            \* giving one more input a default can only add keys
                          \A i \in Tables(C) : ~dflt[i] =>
-                            JoinKeys(C) \subseteq JoinKeys(MkCfg(shape, [dflt EXCEPT ![i] = TRUE], cache))
+                            JoinKeys(C) \subseteq JoinKeys(MkCfg(shape, [dflt EXCEPT ![i] = TRUE], cache, sexp))
 RowValues == Fresh => LET rows == JoinRows(C, NK) IN
                  \A n \in 1..Len(rows) : \A i \in 1..NIn(C) :
                      rows[n].vals[i] = IF ~shape[i].t THEN Scal(i)                           \* scalars broadcast
@@ -126,10 +130,10 @@ DefaultOnlyWithDefault == Fresh => \A k \in JoinKeys(C) : \A i \in Tables(C) : k
 SortedByKey == Fresh /\ ~AllScalar(C) => LET rows == JoinRows(C, NK) IN
                  /\ {rows[n].key : n \in 1..Len(rows)} = JoinKeys(C) /\ Len(rows) = Cardinality(JoinKeys(C))
                  /\ \A n \in 1..(Len(rows) - 1) : LexLess(rows[n].key, rows[n + 1].key)
-ScalarsGiveF == Fresh /\ AllScalar(C) => /\ RunOutcomes(C, NK) = {[kind |-> "value", v |-> F([i \in 1..NIn(C) |-> Scal(i)])]}
+ScalarsGiveF == Fresh /\ AllScalar(C) => /\ RunOutcomes(C, NK, TRUE) = {[kind |-> "value", v |-> F([i \in 1..NIn(C) |-> Scal(i)])]}
                                          /\ RunCalls(C, NK) = <<[i \in 1..NIn(C) |-> Scal(i)]>>
 CallsPlusKept == Fresh => Len(RunCalls(C, NK)) + Cardinality({k \in JoinKeys(C) : CachedPast(C, k)}) = Cardinality(JoinKeys(C))
-OnlyPastIsKept == Fresh => \A k \in JoinKeys(C) : CachedPast(C, k) <=> (k \in Keys /\ cache[k] = "past")
+OnlyPastIsKept == Fresh => \A k \in JoinKeys(C) : CachedPast(C, k) <=> (k \in Keys /\ (cache[k] = "past" \/ (cache[k] = "absent" /\ sexp = "past")))
 MechanismIsLaw == Fresh => MechJoin(C) = JoinAsMap(C)
 
 \* ---- the evaluation machine against the law ----------------------------------------------------
@@ -146,15 +150,19 @@ FinalIsLaw   == phase = "done" => /\ DOMAIN out = JoinKeys(C)
 \* ---- generator: one line per configuration with everything the specification accepts ----------
 MapRows(m) == LET ks == SortedKeys(DOMAIN m, NK) IN [n \in 1..Len(ks) |-> [key |-> ks[n], v |-> m[ks[n]]]]
 InJson(x)  == [kind |-> x.kind, v |-> x.v, rows |-> MapRows(x.map)]
-OptMap(o)  == IF o = <<>> THEN [kind |-> "absent", rows |-> <<>>] ELSE [kind |-> "keyed", rows |-> MapRows(o[1])]
+OptMap(o)  == IF o = <<>> THEN [kind |-> "absent", rows |-> <<>>, v |-> None]
+              ELSE IF Len(o) = 2 THEN [kind |-> "scalar", rows |-> <<>>, v |-> o[2]]
+              ELSE [kind |-> "keyed", rows |-> MapRows(o[1]), v |-> None]
 CfgJson(c) == [nk |-> NK, ins |-> [i \in 1..NIn(c) |-> InJson(c.ins[i])], defs |-> c.defs,
                data |-> OptMap(c.data), expiry |-> OptMap(c.expiry)]
 Case(c) == [c |-> CfgJson(c), size |-> size,
-            run |-> SetToSeq(RunOutcomes(c, NK)), calls |-> RunCalls(c, NK),
-            join |-> SetToSeq(JoinOutcomes(c, NK)),
+            \* what is accepted when `on` is rendered in alphabetical order of the column names / otherwise
+            run |-> [alpha |-> SetToSeq(RunOutcomes(c, NK, TRUE)), other |-> SetToSeq(RunOutcomes(c, NK, FALSE))],
+            join |-> [alpha |-> SetToSeq(JoinOutcomes(c, NK, TRUE)), other |-> SetToSeq(JoinOutcomes(c, NK, FALSE))],
+            calls |-> RunCalls(c, NK),
             nrows |-> Cardinality(JoinKeys(c)), nkept |-> Cardinality({k \in JoinKeys(c) : CachedPast(c, k)})]
 Gen == /\ phase = "new"
-       /\ LET c == MkCfg(shape, dflt, cache) IN InDomain(c) /\ PrintT(ToJson(Case(c)))
+       /\ LET c == MkCfg(shape, dflt, cache, sexp) IN InDomain(c) /\ PrintT(ToJson(Case(c)))
        /\ phase' = "done"
-       /\ UNCHANGED <<size, shape, dflt, cache, C, todo, out, calls, ncall>>
+       /\ UNCHANGED <<size, shape, dflt, cache, sexp, C, todo, out, calls, ncall>>
 =============================================================================
